@@ -16,9 +16,17 @@ HERE = os.path.dirname(os.path.abspath(__file__))
 
 
 # ---- TLA+ value printing / parsing -------------------------------------------------------------------------------
+ENC, DEC = {}, {}
+
+
 def tla_str(s):
-    assert '"' not in s and "\\" not in s
-    return '"' + s + '"'
+    """Alphabet strings are handed to TLC as opaque ASCII tokens (TLC's dot dump garbles non-ASCII characters);
+    the mapping is a bijection and is undone when the dumped graph is read back."""
+    if s not in ENC:
+        tok = f"t{len(ENC)}"
+        ENC[s] = tok
+        DEC[tok] = s
+    return '"' + ENC[s] + '"'
 
 
 def tla_set(items):
@@ -59,7 +67,7 @@ class P:
             j = self.t.index('"', self.i + 1)
             s = self.t[self.i + 1 : j]
             self.i = j + 1
-            return s
+            return DEC.get(s, s)
         if c == "{":
             self.eat("{")
             out = []
@@ -187,9 +195,9 @@ def run(depth=2, workers=4, keep=False):
             f.write("MCOps == " + tla_set(ops) + "\n")
             f.write("MCInits == " + tla_set(tla_set(map(tla_rec, i)) for i in inits) + "\n")
             strs = sorted({x for r in list(recs) + [q for i in inits for q in i] for x in (*r.prefixes, *r.uri_prefixes)})
-            folds = [(x, x.casefold()) for x in strs if x.casefold() != x]
-            body = " [] ".join(f"s = {tla_str(a)} -> {tla_str(b)}" for a, b in folds)
-            f.write("MCFold(s) == " + (f"CASE {body} [] OTHER -> s" if folds else "s") + "\n")
+            classes = sorted({x.casefold() for x in strs})
+            body = " [] ".join(f's = {tla_str(a)} -> "F{classes.index(a.casefold())}"' for a in strs)
+            f.write("MCFold(s) == CASE " + body + " [] OTHER -> s\n")
             f.write("====\n")
         with open(os.path.join(work, "AddRecordMC.cfg"), "w") as f:
             f.write(f"SPECIFICATION Spec\nCONSTANTS\n Ops <- MCOps\n Inits <- MCInits\n Fold <- MCFold\n Depth = {depth}\nINVARIANTS Unique WellFormed\n")
